@@ -458,6 +458,7 @@ fn e2e_path(tag: &str) -> String {
         "raw_4_1_t3" => format!("type::{tag}"),
         "z_0_2_t12" => format!("zero::{tag}"),
         "s1_t2" | "s2_plain" | "s3_t3" | "s4_t12" => format!("sib::{tag}"),
+        "vtune_grp" => format!("vgrp::{tag}"),
         _ => tag.to_string(),
     };
     format!("hx_loop_e2e::{rel}")
@@ -465,7 +466,8 @@ fn e2e_path(tag: &str) -> String {
 
 /// Case: `bench=<tag> via=<cli|env|attr|attr+cli-n|builder|builder+env-n|builder+env-s> mode=<b|t> n=<n|-> s=<s> threads=<a,b,..>
 /// [mx=0] [bn=<builder count overridden by the environment>] [bs=..] [start=<main|api-test|api-bench|args-..>] [arg=<case below the benchmark>] [nomark=1] [with=<siblings run along>]
-/// [maxs=<secs>] [mins=<secs>] [tvia=cli|env] [skipx=1] [vcost=<ticks per call on the virtual clock>] [timer=os|tsc]` (the
+/// [maxs=<secs>] [mins=<secs>] [tvia=cli|env] [skipx=1] [vcost=<ticks per call on the virtual clock>] [timer=os|tsc] [prec=<precision ps>]
+/// [evlog=1: append the round sizes and the history read from the dumped event log]` (the
 /// effective values; `via` says where they are given).  Output: per thread
 /// count `t=T samples=.. iters=.. calls=<per thread index>` joined by `;`.
 fn run_e2e(line: &str) -> String {
@@ -520,9 +522,13 @@ fn run_e2e(line: &str) -> String {
     }
     // time limits as decimal seconds, on the command line or in the environment
     let tenv = get("tvia") == "env";
+    // `tvia=builder`: `Divan::max_time(..)` / `min_time(..)` before `config_with_args()`
+    let mut builder_time = String::new();
     for (tok, flag, var) in [("maxs", "--max-time", "DIVAN_MAX_TIME"), ("mins", "--min-time", "DIVAN_MIN_TIME")] {
         if get(tok) != "-" {
-            if tenv {
+            if get("tvia") == "builder" {
+                builder_time.push_str(&format!(";{}={}", if tok == "maxs" { "max_time" } else { "min_time" }, get(tok)));
+            } else if tenv {
                 cmd.env(var, get(tok));
             } else {
                 cmd.arg(flag).arg(get(tok));
@@ -535,6 +541,9 @@ fn run_e2e(line: &str) -> String {
         } else {
             cmd.arg("--skip-ext-time");
         }
+    }
+    if get("prec") != "-" {
+        cmd.env("HX_PREC", get("prec"));
     }
     // `vcost=<ticks per call>`: the benchmark runs on the virtual timestamp counter (1 tick = 1 ps)
     if get("vcost") != "-" {
@@ -568,7 +577,7 @@ fn run_e2e(line: &str) -> String {
             if bn != "-" {
                 spec.push_str(&format!(";sample_count={bn}"));
             }
-            cmd.env("HX_BUILDER", spec);
+            builder_time = format!("{spec}{builder_time}");
             if via == "builder+env-n" {
                 cmd.env("DIVAN_SAMPLE_COUNT", get("n"));
             } else if via == "builder+env-s" {
@@ -576,6 +585,9 @@ fn run_e2e(line: &str) -> String {
             }
         }
         _ => {}
+    }
+    if !builder_time.is_empty() {
+        cmd.env("HX_BUILDER", builder_time.trim_start_matches(';'));
     }
     let mut child = cmd.stdout(Stdio::piped()).stderr(Stdio::piped()).spawn().expect("spawn hx-loop-e2e");
     // read both pipes on helper threads so that the child never blocks on a full pipe; 60 s watchdog
@@ -691,12 +703,85 @@ fn run_e2e(line: &str) -> String {
     if let Some((sa, it)) = figures.get(&0) {
         rows.push(format!("single-row samples={sa} iters={it}"));
     }
-    rows.join(";")
+    let mut line = rows.join(";");
+    if get("evlog") == "1" {
+        // the crate's event log as dumped by hx-loop-e2e: `EV thread kind value` in logging order; per thread the
+        // START (1) / END (2) readings and the calls (17) between them give every round and its size
+        let t = threads.first().copied().unwrap_or(1);
+        let mut per: Vec<Vec<(u64, Option<u64>, u64)>> = vec![Vec::new(); t];
+        let mut starts0 = 0usize;
+        let mut ends0 = 0usize;
+        let mut evs: Vec<(usize, u8, u64)> = Vec::new();
+        for l in stderr.lines() {
+            let tok: Vec<&str> = l.split(' ').collect();
+            if tok.len() == 4 && tok[0] == "EV" {
+                if let (Ok(th), Ok(k), Ok(a)) = (tok[1].parse::<usize>(), tok[2].parse::<u8>(), tok[3].parse::<u64>()) {
+                    if th == 0 && k == 1 {
+                        starts0 += 1;
+                    }
+                    if th == 0 && k == 2 {
+                        ends0 += 1;
+                    }
+                    evs.push((th, k, a));
+                }
+            }
+        }
+        // one START more than ENDs on the caller: the first is `initial_start`
+        let mut init: Option<u64> = None;
+        let mut skip_first = starts0 == ends0 + 1;
+        let mut bad = false;
+        for (th, k, a) in evs {
+            if th >= t {
+                bad = true;
+                continue;
+            }
+            match k {
+                1 if th == 0 && skip_first => {
+                    skip_first = false;
+                    init = Some(a);
+                }
+                1 => per[th].push((a, None, 0)),
+                2 => match per[th].last_mut() {
+                    Some(r) if r.1.is_none() => r.1 = Some(a),
+                    _ => bad = true,
+                },
+                17 => match per[th].last_mut() {
+                    Some(r) if r.1.is_none() => r.2 += 1,
+                    _ => bad = true,
+                },
+                _ => {}
+            }
+        }
+        let k = per[0].len();
+        let sizes: Vec<u64> = per[0].iter().map(|r| r.2).collect();
+        for p in &per {
+            if p.len() != k || p.iter().map(|r| r.2).collect::<Vec<_>>() != sizes || p.iter().any(|r| r.1.is_none()) {
+                bad = true;
+            }
+        }
+        let h: Vec<String> = (0..k)
+            .map(|r| {
+                per.iter()
+                    .filter_map(|p| p.get(r))
+                    .map(|x| format!("{}:{}:0/0/0/0:0", x.0, x.1.unwrap_or(0)))
+                    .collect::<Vec<_>>()
+                    .join(",")
+            })
+            .collect();
+        line = format!(
+            "{line} sizes={}{} | init={} h={}",
+            join(sizes),
+            if bad { " badlog=1" } else { "" },
+            init.map_or("-".to_string(), |i| i.to_string()),
+            h.join(";")
+        );
+    }
+    line
 }
 
 fn dispatch(mode: &str, line: &str) -> String {
     match mode {
-        "c03e2e" | "c04cli" | "c04os" => run_e2e(line),
+        "c03e2e" | "c04cli" | "c04os" | "c19cli" => run_e2e(line),
         "c03" | "c04" | "c19" | "loop" => run_case(line),
         _ => panic!("unknown mode {mode}"),
     }
